@@ -66,6 +66,27 @@ ApiOK(r) ==
         /\ r.api.lt = r.t0                       \* GET list, fields=script
         /\ r.api.raw                             \* script-format=raw returns the text that was stored
 
+(* The API path over TIME: histories on one template id, a task created from  *)
+(* it and a plain task id - create, template update (pushes the new script     *)
+(* into its tasks), rejected template update (rolled back), PATCH, delete and   *)
+(* re-create of the same id.  After EVERY step, for every object observed:      *)
+(* the formatted script (GET, and the list handler) parses to the tree of the   *)
+(* raw script, and the raw script is the script in force now ("exp": the        *)
+(* driver's bookkeeping of accepted requests; trees are compared by digest).    *)
+ObsOK(o) == o.f = o.r /\ o.l = o.r /\ o.rawis /\ o.r = o.exp
+HistOK(r) == \A i \in DOMAIN r.hist : \A k \in DOMAIN r.hist[i].obs : ObsOK(r.hist[i].obs[k])
+
+(* tick/cmd/tickfmt run as a subprocess on a file holding the script (as it   *)
+(* is / already formatted / padded: the formatted text is shorter, equally     *)
+(* long or longer than the source).  A valid script formats (status 0);        *)
+(* without -w the file is not touched and the formatted script is printed;     *)
+(* with -w -b the file holds exactly what is printed without -w, which parses  *)
+(* to the tree of the source, and the backup holds the source byte for byte.   *)
+TfCaseOK(c) ==
+    /\ c.rcout = 0 /\ c.untouched /\ c.st = c.t
+    /\ c.rcw = 0 /\ c.wt = c.t /\ c.wsame /\ c.bak
+TfOK(r) == \A i \in DOMAIN r.tf : TfCaseOK(r.tf[i])
+
 (* JSON form of a lambda (tick/ast/json.go) and the text of what came back *)
 LamOK(m) ==
     \/ /\ m.jerr = "" /\ m.tj = m.t /\ m.eq
@@ -101,6 +122,8 @@ ScriptOK(r) ==
     /\ (r.want # <<>> => r.has)                \* the literal denotes the documented value
     /\ FormatOK(r)
     /\ ApiOK(r)
+    /\ HistOK(r)
+    /\ TfOK(r)
     /\ \A i \in DOMAIN r.lams : LamOK(r.lams[i])
     /\ RenderOK(r.b, r.o.iso)
     /\ PJsonOK(r)
